@@ -320,7 +320,7 @@ func genSmpHistory(w *bufio.Writer, rng *rand.Rand, maxN int, quantOnly bool) {
 // caller's data stay as they were.
 func genSmpExtreme(w *bufio.Writer, rng *rand.Rand) {
 	n := 2 + rng.Intn(9)
-	mag := []float64{1e150, 1.3e154, 2e154, 1e170, 1e200, 1e295, 1e300, 1e307, 8e307}[rng.Intn(9)]
+	mag := []float64{1e150, 1.3e154, 2e154, 1e170, 1e200, 1e295, 1e300, 1e307, 8e307, 1.7e308, 1.79e308}[rng.Intn(11)]
 	sign := float64(rng.Intn(2)*2 - 1)
 	xs := make([]float64, n)
 	for i := range xs {
@@ -335,9 +335,9 @@ func genSmpExtreme(w *bufio.Writer, rng *rand.Rand) {
 		// the weighted mean multiplies a deviation by its weight (up to 3 here) before dividing by the
 		// running weight: that product has to stay in range for the formula to deliver anything
 		for i := range xs {
-			xs[i] /= 2
+			xs[i] /= 4
 		}
-		mag /= 2
+		mag /= 4
 	}
 	if weighted {
 		wv := make([]float64, n)
@@ -365,6 +365,10 @@ func genSmpExtreme(w *bufio.Writer, rng *rand.Rand) {
 			names = []string{"mean", "fmean", "sum", "bounds", "var", "sd", "sd", "var"}
 		}
 		ops = append(ops, fmt.Sprintf("[%s,0]", names[rng.Intn(len(names))]), "[dump,0]")
+		if !weighted && rng.Intn(2) == 0 { // quantiles between neighbours of one sign: nothing here overflows
+			q := []float64{0.5, 0.25, 0.75, 0, 1, rng.Float64(), (float64(1+rng.Intn(n)) - 1.0/3) / (float64(n) + 1.0/3)}[rng.Intn(7)]
+			ops = append(ops, fmt.Sprintf("[quant,0,%s]", fmtF(q)), "[dump,0]")
+		}
 	}
 	fmt.Fprintf(w, "smp [%s]\n", strings.Join(ops, ","))
 }
@@ -426,5 +430,8 @@ func genC10(w *bufio.Writer, tier string, rng *rand.Rand) {
 	nh := pick(tier, 3000, 120000)
 	for k := 0; k < nh; k++ {
 		genSmpHistory(w, rng, pick(tier, 40, 200), true)
+	}
+	for k := 0; k < pick(tier, 250, 6000); k++ {
+		genSmpExtreme(w, rng)
 	}
 }
